@@ -199,7 +199,10 @@ def header_cases(rng, quick):
             if rng.random() < 0.4:
                 er[rng.choice(GROUPED_UNKNOWN)] = "w"
             if rng.random() < 0.3:
-                er[g.split(":")[0].strip() or "foo"] = "u"
+                base = g.split(":")[0].strip()
+                # (a header that is or ends in the bare token `jr` raises IndexError in process_header: C05's finding,
+                #  `unsupported` in the model; not generated here)
+                er[base if base not in ("", "jr") else "foo"] = "u"
             yield "header-grouped-unknown", mk_form(rows0, [er])
     for a, b in ((" foo ", "foo"), ("foo", " foo "), ("Foo", "foo"), ("why", "why ")):
         er = entity_row(rng, (0, 0, 0, 1))
